@@ -324,7 +324,8 @@ def serde_keys(ser):
             v = q.shape(q.arg_expr(ser, t, 2))
             ks = k.unname().str_value() if isinstance(k.unname(), Const) else None
             if ks is not None:
-                keys.setdefault(ks, {"field": v.split(".")[-1], "skip": False})
+                ent = keys.setdefault(ks, {"field": None, "skip": False})
+                ent["field"] = v.split(".")[-1]
         elif nm == "SerializeStruct::skip_field":
             k = q.arg_expr(ser, t, 1)
             ks = k.unname().str_value() if isinstance(k.unname(), Const) else None
